@@ -16,12 +16,18 @@ PREFIXES = {  # for capacity 4 (a=2, b=2, c=3)
 }
 
 
-BIG = {"a": 5000, "b": 4096, "c": 7000}  # sizes above / at / not a multiple of the 4096-byte page-in chunk
+BIG = {"a": 9000, "b": 4096, "c": 5000}  # three chunks / exactly one / two chunks of the 4096-byte page-in loop
 
 
 def space(ctx):
-    # (capacity, depth bound, sizes)
-    return ctx.pick([(4, 8, SIZES), (5, 7, SIZES), (10000, 6, BIG)], [(4, 13, SIZES), (5, 12, SIZES), (10000, 10, BIG)])
+    """(capacity, depth bound, sizes, options). Options: split = the I/O of a disk job and the delivery of its result
+    are separate events, so requests also interleave with a job whose segment/file work is done but whose callback has
+    not run yet; stale_writers = the 16-minute jump may also happen while a writer is open (the store then treats the
+    unfinished dataset as abandoned and may page it out)."""
+    quick = [(4, 8, SIZES, {}), (5, 7, SIZES, {}), (13500, 6, BIG, {}), (4, 7, SIZES, {"split": True}), (4, 7, SIZES, {"stale_writers": True})]
+    thorough = [(4, 13, SIZES, {}), (5, 12, SIZES, {}), (13500, 10, BIG, {}), (4, 11, SIZES, {"split": True}), (5, 10, SIZES, {"split": True}),
+                (4, 11, SIZES, {"stale_writers": True}), (4, 9, SIZES, {"stale_writers": True, "split": True})]
+    return ctx.pick(quick, thorough)
 
 
 def explore(ctx, prop: str, with_liveness: bool):
@@ -30,8 +36,12 @@ def explore(ctx, prop: str, with_liveness: bool):
     depths, closed_all, samples = [], True, []
     t_budget = ctx.pick(1200, 2400)
     histories_for_conformance: list = []
-    for (cap, depth, sizes) in space(ctx):
+    for (cap, depth, sizes, opt) in space(ctx):
         cfg = {"capacity": cap, "sizes": sizes, "age": with_liveness}  # C09 also lets readers grow older than the staleness window
+        if opt.get("split"):
+            cfg["split"] = True
+        if opt.get("stale_writers"):
+            cfg["age"] = "writers"  # C09 also lets readers grow older than the staleness window
 
         def expand(hist, cfg=cfg):
             w = shmworld.build(cfg, hist)
@@ -48,7 +58,7 @@ def explore(ctx, prop: str, with_liveness: bool):
         r = _bfs(expand, shmworld.build(cfg, []).canon(), depth, time.time() + t_budget / len(space(ctx)))
         # start from non-initial states too: scripted prefixes that reach states beyond the depth bound (datasets that
         # went to disk and came back, were purged, leaving files behind), then the same exhaustive exploration from there
-        for pname, prefix in (PREFIXES.items() if cap in (4, 10000) else ()):
+        for pname, prefix in (PREFIXES.items() if cap in (4, 13500) and not opt else ()):
             try:
                 w0 = shmworld.build(cfg, prefix)
             except Exception as e:
@@ -64,11 +74,11 @@ def explore(ctx, prop: str, with_liveness: bool):
                     ctx.add_violation(common.Violation({"monitor": mon, "cause": cause}, f"[capacity {cap}, from {pname}] {msg}; history={hist}", {"cfg": cfg, "history": hist}))
         tot["states"] += r["states"]
         tot["transitions"] += r["transitions"]
-        depths.append({"capacity": cap, "depth_completed": r["depth"], "closed": r["closed"], "states": r["states"], "capped": r["capped"]})
+        depths.append({"capacity": cap, "options": sorted(opt), "depth_completed": r["depth"], "closed": r["closed"], "states": r["states"], "capped": r["capped"]})
         closed_all = closed_all and r["closed"]
         for (mon, cause), (msg, hist) in r["violations"].items():
             if prop in shmworld.MON_PROP.get(mon, ()):
-                ctx.add_violation(common.Violation({"monitor": mon, "cause": cause}, f"[capacity {cap}] {msg}; history={hist}", {"cfg": cfg, "history": hist}))
+                ctx.add_violation(common.Violation({"monitor": mon, "cause": cause}, f"[capacity {cap}{' ' + '+'.join(sorted(opt)) if opt else ''}] {msg}; history={hist}", {"cfg": cfg, "history": hist}))
         samples += [{"capacity": cap, "history": h} for h in r["samples"][:2]]
         histories_for_conformance += [(cfg, h) for h in r["all_histories"]]
     ctx.coverage.update(states=tot["states"], transitions=tot["transitions"], traces_validated_against_impl=tot["transitions"],
